@@ -188,4 +188,41 @@ theorem prefix_faithful : ∀ (ps cs : List Bytes), ps ≠ [] → (∀ p ∈ ps,
       · rintro ⟨h1, h2, h3⟩; exact ⟨⟨h1, h2⟩, by omega⟩
       · rintro ⟨⟨h1, h2⟩, h3⟩; exact ⟨h1, h2, by omega⟩
 
+/-! ### the key-value map of C03's model -/
+
+theorem get_del_ne (m : KV) (k k' : SKey) (h : k' ≠ k) : (m.del k).get k' = m.get k' := by
+  simp only [KV.del, KV.get, List.find?_filter]
+  congr 2
+  funext a
+  by_cases ha : a.1 = k'
+  · have : ¬ a.1 = k := fun e => h (ha.symm.trans e)
+    simp [ha, h]
+  · simp [ha]
+
+theorem get_set_eq (m : KV) (k : SKey) (v : Val) : (m.set k v).get k = some v := by
+  simp [KV.set, KV.get]
+
+theorem get_set_ne (m : KV) (k k' : SKey) (v : Val) (h : k' ≠ k) : (m.set k v).get k' = m.get k' := by
+  have := get_del_ne m k k' h
+  simp only [KV.set, KV.get, List.find?_cons] at this ⊢
+  simp [Ne.symm h, this]
+
+/-! ### Struct conversion -/
+
+mutual
+  theorem ofPV_toPV : ∀ v : JV, ofPV (toPV v) = v
+    | .null => rfl
+    | .bool _ => rfl
+    | .num _ => rfl
+    | .str _ => rfl
+    | .arr xs => by simp [toPV, ofPV, ofPVList_toPVList xs]
+    | .obj kvs => by simp [toPV, ofPV, ofPVFields_toPVFields kvs]
+  theorem ofPVList_toPVList : ∀ xs : List JV, ofPVList (toPVList xs) = xs
+    | [] => rfl
+    | x :: xs => by simp [toPVList, ofPVList, ofPV_toPV x, ofPVList_toPVList xs]
+  theorem ofPVFields_toPVFields : ∀ xs : List (String × JV), ofPVFields (toPVFields xs) = xs
+    | [] => rfl
+    | (k, x) :: xs => by simp [toPVFields, ofPVFields, ofPV_toPV x, ofPVFields_toPVFields xs]
+end
+
 end Grip.Props.C16.Lemmas
